@@ -58,6 +58,14 @@ def cases(tier, seed):
                   'prep': bool(h % 3 == 2), 'variant': h,
                   'ro': bool(h % 2 == 1),
                   'fresh': bool(not q or h % 3 != 1)})
+  # datasets large and wide enough for scikit-learn's PCA to pick its
+  # randomized solver (the only one that draws random numbers): more than 500
+  # samples, fewer than 10 x features, few components
+  for name in ('NCA', 'MLKR', 'LMNN'):
+    for init in (['pca', 'auto'] if q else ['pca', 'auto', 'pca', 'auto']):
+      r = rng_for('c17-large', seed, name, init, len(out))
+      out.append({'kind': 'large-pca', 'est': name, 'init': init,
+                  'hseed': int(r.randint(2**31 - 1))})
   return _with_repotests(out, tier)
 
 
@@ -154,10 +162,58 @@ def _fresh_process_twin(proto, args, kwargs, since_fit, np_seed):
     shutil.rmtree(tmp, ignore_errors=True)
 
 
+def _large_pca_case(spec, j):
+  name = spec['est']
+  rng = rng_for('c17-large-run', spec['hseed'])
+  n, d, c = int(rng.randint(510, 560)), int(rng.randint(56, 70)), 4
+  y = rng.randint(0, c, size=n)
+  X = rng.randn(n, d) * np.exp(rng.uniform(-1, 1, size=d)) + \
+      rng.randn(c, d)[y] * 2.0
+  t = X[:, 0] + 0.1 * rng.randn(n)
+  params = dict(init=spec['init'], n_components=int(rng.randint(4, 7)),
+                max_iter=2, random_state=int(rng.randint(1000)))
+  if name == 'LMNN':
+    params.update(n_neighbors=2, learn_rate=1e-6)
+  args = (X, t) if name == 'MLKR' else (X, y)
+  det = {'est': name, 'init': spec['init'], 'shape': X.shape,
+         'n_components': params['n_components']}
+  est = E.cls(name)(**params)
+  Q = X[rng.randint(0, n, size=(6, 2))]
+  api.set_judge(j)
+  try:
+    with Quiet():
+      np.random.seed(int(rng.randint(2**31 - 1)))
+      est.fit(*args)
+      import copy
+      first = copy.deepcopy(est)
+      np.random.seed(int(rng.randint(2**31 - 1)))
+      est.fit(*args)                      # repeat on the same object
+      c2 = clone(est)
+      np.random.seed(int(rng.randint(2**31 - 1)))
+      c2.fit(*args)                       # fresh clone
+  except Exception as e:
+    j.violated('C17.history-runs', dict(det, raised=repr(e)[:300]),
+               mechanism='history-raised-' + type(e).__name__)
+    return
+  _compare(j, 'C17.repeat-fit', est, first, Q, det)
+  _compare(j, 'C17.history-independent', est, c2, Q, det)
+  with api.paused():
+    tw, err = _fresh_process_twin(clone(est), args, {}, [],
+                                  int(rng.randint(2**31 - 1)))
+  if tw is None:
+    j.violated('C17.fresh-process', dict(det, fresh_process_raised=err),
+               mechanism='fresh-process-fit-raised')
+  else:
+    _compare(j, 'C17.fresh-process', est, tw, Q, det)
+  j.distinct(name, 'large-pca', spec['hseed'])
+
+
 def run_case(spec, j):
   if spec.get('kind') == 'repotests':
     from .. import repotests
     return repotests.run(spec, j)
+  if spec.get('kind') == 'large-pca':
+    return _large_pca_case(spec, j)
   name = spec['est']
   rng = rng_for('c17run', spec['hseed'])
   kind = E.KIND[name]
